@@ -193,7 +193,7 @@ def classify(evs):
                         tags.append(F_D14)
                     elif ev.run['rule'] in rule_classes()['wide']:
                         tags.append(F_PEPSIN)
-                    elif SG.explained_by_softsite_missing(xw, ws):
+                    elif SG.explained_by_softsite_missing(xw, ws, recs):
                         tags.append(F_PEPSIN)
                     elif ev.run['rule'] in rule_classes()['nola'] and SG.explained_by_adjacent_sites(xw, ws):
                         tags.append(F_ADJ)
